@@ -102,7 +102,10 @@ func main() {
 		trimCase(c.Samples, c.Cfg, i)
 	})
 	randomCases()
-	run.Finish("each evaluation is one real trimmed report (form x node cutoff x nodecount x edge cutoff x sort) of a TLC-enumerated or random profile, validated by TLC (TraceTrim.tla) against the untrimmed definition; non-trivial = report in which at least one entry or edge was removed or marked residual, counted distinct by (shown rows, edges, options)")
+	if run.N > 0 {
+		callTreeCases()
+	}
+	run.Finish("each evaluation is one real trimmed report (form x node cutoff x nodecount x edge cutoff x sort) of a TLC-enumerated or random profile, validated by TLC (TraceTrim.tla) against the untrimmed definition; non-trivial = report in which at least one entry or edge was removed or marked residual, counted distinct by (shown rows, edges, options); plus call_tree dot reports of forests (nodecount x node cutoff x sort x mean) compared in the harness with the untrimmed call tree")
 }
 
 var baseSeen = map[string]bool{}
@@ -395,5 +398,337 @@ func randomCases() {
 		}
 		cfg := vrep.Cfg{Gran: grans[r.Intn(len(grans))], NoInl: r.Intn(4) == 0, SI: 2, TRoot: []string{}, TLeaf: []string{}}
 		trimCase(ss, cfg, it)
+	}
+}
+
+// ---------------------------------------------------------------------------
+// Call trees: -dot -call_tree is the one place where trimming does not rebuild
+// the graph from the samples with a kept set (what Trim.tla models) but edits
+// the tree in place (graph.TrimTree) and prints it with ComposeDot.  Trim.tla /
+// TrimRules.tla do not model that variant, so these are directed and random
+// runs whose expectations are computed HERE, from the real untrimmed
+// -call_tree report of the same profile and the rules of the property:
+//   - the entries shown are entries of the untrimmed tree with the same flat/cum
+//     (under -mean: the same mean figures),
+//   - every printed edge joins two printed entries (nothing like N0 -> Nk),
+//   - an entry d whose nearest shown ancestor is a has exactly the in-edge
+//     a -> d carrying the weight of the untrimmed edge INTO d (the last removed
+//     hop; under -mean the untrimmed mean figure), marked residual iff a is not
+//     d's parent; an entry without shown ancestor has no in-edge,
+//   - nodecount=N shows at most N entries, nothing below the cum cutoff is
+//     shown, the legend accounts for the flats shown (sum reports).
+// The forests give every function ONE calling context, so that names identify
+// the entries of the call tree; they include several roots, pass-through
+// roots and chains (flat = 0: the entropy order of nodecount removes those and
+// keeps their descendants) and comparison-like negative values (a cum cutoff
+// then removes the middle of a chain).
+// ---------------------------------------------------------------------------
+
+type ctNode struct {
+	Name   string `json:"name"`
+	Parent int    `json:"parent"` // index of the caller, -1 for a root
+	Cnt    int64  `json:"cnt"`    // first sample value (the divisor of -mean)
+	Self   int64  `json:"self"`   // second sample value; 0 = no sample ends here
+}
+
+func ctSamples(f []ctNode) []vlib.ASample {
+	m0 := vlib.AMap{Build: "B1", File: "bin", Start: 16, Size: 8}
+	loc := func(i int) vlib.ALoc {
+		fn := vlib.AFn{Name: f[i].Name, Sys: f[i].Name, File: "t.c"}
+		return vlib.ALoc{Map: m0, Rel: int64(i + 1), Lines: []vlib.ALine{{Fn: fn, Line: int64(10 + i), Col: 1}}}
+	}
+	var ss []vlib.ASample
+	for i := range f {
+		if f[i].Self == 0 {
+			continue
+		}
+		s := vlib.ASample{Vals: []int64{f[i].Cnt, f[i].Self}, Lab: []vlib.ASLab{}, Num: []vlib.ANLab{}, Locs: []vlib.ALoc{}}
+		for k := i; k >= 0; k = f[k].Parent {
+			s.Locs = append(s.Locs, loc(k))
+		}
+		ss = append(ss, s)
+	}
+	return ss
+}
+
+// ctUsable: every entry has a non-zero cum (zero entries are never shown: C04) and a unique name.
+func ctUsable(f []ctNode) (ok, neg bool) {
+	cum := make([]int64, len(f))
+	names := map[string]bool{}
+	for i := range f {
+		if names[f[i].Name] || f[i].Parent >= i {
+			return false, false
+		}
+		names[f[i].Name] = true
+		if f[i].Self < 0 || f[i].Cnt < 0 {
+			neg = true
+		}
+		for k := i; k >= 0; k = f[k].Parent {
+			cum[k] += f[i].Self
+		}
+	}
+	for _, c := range cum {
+		if c == 0 {
+			return false, neg
+		}
+	}
+	return true, neg
+}
+
+type ctSetting struct {
+	N    int    `json:"n"`
+	C    int64  `json:"c"`
+	Sort string `json:"sort"`
+}
+
+func callTreeCases() {
+	directed := [][]ctNode{
+		// main -> work 100 ; r -> c 50 : nodecount=3 removes the pass-through root r and keeps c
+		{{"main", -1, 0, 0}, {"work", 0, 1, 100}, {"r", -1, 0, 0}, {"c", 2, 1, 50}},
+		// main -> mid -> leaf (4 x 100) ; main -> other (2 x 50) : nodecount=3 removes the middle of the chain
+		{{"main", -1, 0, 0}, {"mid", 0, 0, 0}, {"leaf", 1, 4, 400}, {"other", 0, 2, 100}},
+		{{"main", -1, 0, 0}, {"a", 0, 0, 0}, {"b", 1, 0, 0}, {"c", 2, 3, 90}, {"d", 0, 2, 60}},
+		{{"r1", -1, 1, 7}, {"a", 0, 0, 0}, {"b", 1, 2, 20}, {"r2", -1, 0, 0}, {"e", 3, 0, 0}, {"f", 4, 3, 30}, {"g", 3, 1, 3}},
+		{{"main", -1, 1, 5}, {"a", 0, 0, 0}, {"b", 1, 2, 40}, {"c", 1, 3, 33}, {"r", -1, 0, 0}, {"s", 4, 0, 0}, {"t", 5, 5, 25}},
+		// comparison-like values: |cum| of the middle (or of the root) is small although its callees are not
+		{{"r", -1, 0, 0}, {"m", 0, 0, 0}, {"x", 1, 1, 10}, {"y", 1, 1, -9}, {"z", 0, 1, 5}},
+		{{"r", -1, 0, 0}, {"p", 0, 1, 6}, {"q", 0, 1, -5}, {"s", -1, 0, 0}, {"t", 3, 1, 8}},
+		{{"r", -1, 1, 3}, {"m", 0, 1, -2}, {"k", 1, 0, 0}, {"x", 2, 1, 7}, {"y", 2, 1, -6}},
+	}
+	for i, f := range directed {
+		callTreeCase(f, i, true)
+	}
+	r := vlib.NewRand(run.Seed + 77)
+	names := []string{"main", "run", "f", "g", "h", "i", "j", "k"}
+	nrand := run.N / 6
+	for it := 0; it < nrand; it++ {
+		n := 3 + r.Intn(6)
+		f := make([]ctNode, n)
+		negs := r.Intn(3) == 0
+		for i := range f {
+			f[i] = ctNode{Name: names[i], Parent: -1}
+			if i > 0 && r.Intn(5) != 0 {
+				f[i].Parent = r.Intn(i)
+			}
+		}
+		isLeaf := make([]bool, n)
+		for i := range f {
+			isLeaf[i] = true
+		}
+		for i := range f {
+			if f[i].Parent >= 0 {
+				isLeaf[f[i].Parent] = false
+			}
+		}
+		for i := range f {
+			if isLeaf[i] || r.Intn(3) == 0 {
+				f[i].Cnt = int64(1 + r.Intn(4))
+				f[i].Self = f[i].Cnt * int64(1+r.Intn(9))
+				if negs && r.Intn(3) == 0 {
+					f[i].Self = -f[i].Self
+				}
+			}
+		}
+		callTreeCase(f, it, false)
+	}
+}
+
+func callTreeCase(f []ctNode, idx int, all bool) {
+	ok, neg := ctUsable(f)
+	if !ok {
+		if all {
+			run.Infra("call tree: unusable directed forest")
+		}
+		return
+	}
+	samples := ctSamples(f)
+	p := conc.Profile(vlib.AProf{ST: vrep.SampleTypes, Samples: samples})
+	for _, mean := range []bool{false, true} {
+		if mean && neg {
+			continue // the divisor of a mean may cancel to zero: C04's subject
+		}
+		cfg := vrep.Cfg{Gran: "functions", SI: 2, Mean: mean, TRoot: []string{}, TLeaf: []string{}}
+		base := append(vrep.Flags(cfg, conc), "-call_tree")
+		in0 := map[string]interface{}{"kind": "calltree", "forest": f, "mean": mean}
+		r0 := render(p, append(append([]string{"-dot"}, base...), vrep.NoTrim...)...)
+		if r0.Err != nil || r0.Panic != nil {
+			run.Violate("calltree", "calltree:untrimmed-error", fmt.Sprint(r0.Err, r0.Panic), in0, conc)
+			continue
+		}
+		_, un, ue, err := vdrv.Dot(r0.File("out"))
+		if err != nil {
+			run.Infra("dot reader (call tree): " + err.Error())
+			continue
+		}
+		// the untrimmed report is the reference; its shape must be the forest (its numbers are C04's subject)
+		uN := map[string]vdrv.Node{}
+		uIn := map[string]vdrv.Edge{}
+		shape := len(un) == len(f)
+		for _, n := range un {
+			uN[n.Name] = n
+		}
+		for _, e := range ue {
+			if _, dup := uIn[e.Dst]; dup || e.Via == "undeclared" || e.Residual {
+				shape = false
+			}
+			uIn[e.Dst] = e
+		}
+		var total int64
+		for i := range f {
+			n, ok := uN[f[i].Name]
+			e, hasIn := uIn[f[i].Name]
+			if !ok || hasIn != (f[i].Parent >= 0) || (hasIn && e.Src != f[f[i].Parent].Name) {
+				shape = false
+			}
+			total += n.Flat
+		}
+		if !shape || len(uN) != len(f) {
+			run.Violate("calltree", "calltree:untrimmed-shape", fmt.Sprintf("the untrimmed -call_tree report is not the forest of the samples: nodes %v edges %v", un, ue), in0, conc)
+			continue
+		}
+		var maxCum int64
+		for _, n := range un {
+			if absI(n.Cum) > maxCum {
+				maxCum = absI(n.Cum)
+			}
+		}
+		var settings []ctSetting
+		for n := 1; n < len(f); n++ {
+			settings = append(settings, ctSetting{n, 0, []string{"flat", "cum"}[(n+idx)%2]})
+		}
+		settings = append(settings, ctSetting{0, 2, "flat"}, ctSetting{0, maxCum, "cum"}, ctSetting{len(f) - 1, 2, "cum"}, ctSetting{2, 3, "flat"})
+		if !all && run.Tier != "thorough" {
+			// nodecount around the number of entries with a flat value is where pass-through entries go
+			k := (idx + int(run.Seed)) % 2
+			var s2 []ctSetting
+			for i, st := range settings {
+				if i%2 == k || st.N == len(f)-1 {
+					s2 = append(s2, st)
+				}
+			}
+			settings = s2
+		}
+		for _, st := range settings {
+			nf := 0.0
+			var nc int64
+			if st.C > 0 && total != 0 && !mean {
+				nf = (float64(st.C) + 0.5) / float64(absI(total))
+				nc = absI(int64(float64(total) * nf))
+			} else if st.C > 0 && mean {
+				nf = float64(st.C) / 100
+			}
+			opts := append([]string{"-dot", "-" + st.Sort, fmt.Sprintf("-nodecount=%d", st.N), fmt.Sprintf("-nodefraction=%g", nf), "-edgefraction=0"}, base...)
+			in := map[string]interface{}{"kind": "calltree", "forest": f, "mean": mean, "opts": opts}
+			r := render(p, opts...)
+			sfx := ""
+			if mean {
+				sfx = ":mean"
+			}
+			if r.Err != nil || r.Panic != nil {
+				run.Violate("calltree", "calltree:error"+sfx, fmt.Sprint(r.Err, r.Panic), in, conc)
+				continue
+			}
+			lg, tn, te, err := vdrv.Dot(r.File("out"))
+			if err != nil {
+				run.Infra("dot reader (call tree): " + err.Error())
+				continue
+			}
+			bad := func(what, detail string) {
+				run.Violate("calltree", "calltree:"+what+sfx, detail+fmt.Sprintf("\ntrimmed: nodes %v edges %v\nuntrimmed: nodes %v edges %v", tn, te, un, ue), in, conc)
+			}
+			shown := map[string]bool{}
+			var sumFlat int64
+			for _, n := range tn {
+				u, ok := uN[n.Name]
+				switch {
+				case !ok:
+					bad("foreign-entry", "entry "+n.Name+" is not an entry of the untrimmed call tree")
+				case shown[n.Name]:
+					bad("entry-twice", "entry "+n.Name+" is shown twice")
+				case u.Flat != n.Flat || u.Cum != n.Cum:
+					bad("numbers", fmt.Sprintf("entry %s shows flat=%d cum=%d, untrimmed flat=%d cum=%d", n.Name, n.Flat, n.Cum, u.Flat, u.Cum))
+				}
+				if !mean && nc > 0 && ok && absI(u.Cum) < nc {
+					bad("cutoff", fmt.Sprintf("entry %s with |cum| %d below the cutoff %d is shown", n.Name, absI(u.Cum), nc))
+				}
+				shown[n.Name] = true
+				sumFlat += n.Flat
+			}
+			if st.N > 0 && len(tn) > st.N {
+				bad("count", fmt.Sprintf("%d entries shown with nodecount=%d", len(tn), st.N))
+			}
+			if !mean && lg.HasShowing && lg.Shown != sumFlat {
+				bad("account", fmt.Sprintf("legend accounts for %d, the flats shown add up to %d", lg.Shown, sumFlat))
+			}
+			type want struct {
+				src string
+				w   int64
+				res bool
+			}
+			exp := map[string]want{}
+			for d := range shown {
+				e, ok := uIn[d]
+				if !ok {
+					continue
+				}
+				a, res := e.Src, false
+				for !shown[a] {
+					up, ok := uIn[a]
+					if !ok {
+						a = ""
+						break
+					}
+					a, res = up.Src, true
+				}
+				if a != "" {
+					exp[d] = want{a, e.W, res}
+				}
+			}
+			seen := map[string]bool{}
+			residuals := 0
+			for _, e := range te {
+				if e.Via == "undeclared" {
+					bad("dangling", fmt.Sprintf("edge %s -> %s (weight %d) refers to an entry that is not shown", e.Src, e.Dst, e.W))
+					continue
+				}
+				if e.Residual {
+					residuals++
+				}
+				x, ok := exp[e.Dst]
+				switch {
+				case !ok || x.src != e.Src || seen[e.Dst]:
+					bad("edge-underivable", fmt.Sprintf("edge %s -> %s (weight %d) does not stand for any path of the untrimmed call tree between nearest shown entries", e.Src, e.Dst, e.W))
+				case x.w != e.W:
+					bad("edge-weight", fmt.Sprintf("edge %s -> %s (residual=%v) shows weight %d, the edge into %s has weight %d in the untrimmed report", e.Src, e.Dst, e.Residual, e.W, e.Dst, x.w))
+				case x.res != e.Residual:
+					bad("edge-residual", fmt.Sprintf("edge %s -> %s: residual=%v, want %v", e.Src, e.Dst, e.Residual, x.res))
+				}
+				seen[e.Dst] = true
+			}
+			for d, x := range exp {
+				if !seen[d] {
+					bad("edge-missing", fmt.Sprintf("no edge %s -> %s (weight %d, residual=%v) although %s is the nearest shown caller of %s", x.src, d, x.w, x.res, x.src, d))
+				}
+			}
+			key := ""
+			if len(tn) != len(un) {
+				b, _ := json.Marshal([]interface{}{"calltree", tn, te, st, mean, residuals})
+				key = string(b)
+			}
+			run.Count(key)
+			run.Counter("calltree-reports", 1)
+			if residuals > 0 {
+				run.Counter("calltree-with-residual-edge", 1)
+				if mean {
+					run.Counter("calltree-mean-with-residual-edge", 1)
+				}
+			}
+			for d := range shown {
+				if _, had := uIn[d]; had && exp[d].src == "" {
+					run.Counter("calltree-root-removed-descendant-kept", 1)
+					break
+				}
+			}
+		}
 	}
 }
